@@ -37,8 +37,8 @@ Theorem marker_cell_by_policy : marker_statement cell_marker_id.
 Proof. exact (marker_statement_holds cell_marker_id). Qed.
 Print Assumptions marker_cell_by_policy.
 
-Theorem similar_insert_by_policy : similar_statement similar_insert_id.
-Proof. exact (similar_statement_holds similar_insert_id). Qed.
+Theorem similar_insert_by_policy : similar_statement similar_insert_id similar_insert_attachments.
+Proof. exact (similar_statement_holds similar_insert_id similar_insert_attachments). Qed.
 Print Assumptions similar_insert_by_policy.
 
 (* After the repairs in /repo the positive statements hold for the regenerated source facts; reverting a repair
@@ -56,11 +56,25 @@ Theorem inline_cells_valid : forall k id0 id1 id2 base lvals rvals start lr rr,
 Proof. exact inline_cells_valid_iff. Qed.
 Print Assumptions inline_cells_valid.
 
-Theorem similar_insert_value_valid : forall k T key s lv rv src v, k <= 5 -> In T cell_type_defs ->
-  prop_schema (nb_defs k) T key = Some s -> validate (nb_defs k) F s lv = Some true ->
-  similar_value similar_insert_id key lv rv src = Some v -> validate (nb_defs k) F s v = Some true.
-Proof. exact similar_value_valid_local. Qed.
+(* every value the similar-insert cell builder writes for a conflicting key (source, metadata, id, execution_count,
+   outputs, attachments) is valid at that key's position of every cell type that has the key, given that the two cells'
+   own values (absent = None) were *)
+Theorem similar_insert_value_valid : forall k T key s lo ro src v, k <= 5 -> In T cell_type_defs ->
+  prop_schema (nb_defs k) T key = Some s -> ovalid k s lo -> ovalid k s ro ->
+  similar_value similar_insert_id similar_insert_attachments key lo ro src = Some v -> validate (nb_defs k) F s v = Some true.
+Proof. exact (similar_value_valid_local similar_insert_attachments). Qed.
 Print Assumptions similar_insert_value_valid.
 
+(* the attachments branch: both sides' attachments kept, differing ones renamed LOCAL_/REMOTE_ -- valid attachments *)
+Theorem similar_attachments_valid : forall k n latt ratt, k <= 5 ->
+  validate (nb_defs k) (S (S (S n))) attachments_schema (JObj latt) = Some true ->
+  validate (nb_defs k) (S (S (S n))) attachments_schema (JObj ratt) = Some true ->
+  validate (nb_defs k) (S (S (S n))) attachments_schema (JObj (merge_similar_attachments latt ratt)) = Some true.
+Proof. exact Render4Proofs.similar_attachments_valid. Qed.
+Print Assumptions similar_attachments_valid.
 
-
+(* the attachments branch is live in the regenerated source facts (reverting the repair breaks this) and produces, on a
+   concrete pair of similar markdown cells at every minor, a valid cell with LOCAL_a.png / REMOTE_a.png / same.png *)
+Theorem similar_attachments_branch_present : similar_insert_attachments = SimAttKeepBoth.
+Proof. exact (eq_refl SimAttKeepBoth). Qed.
+Print Assumptions similar_attachments_branch_present.
